@@ -765,7 +765,13 @@ func (w *symWalker) call(x *ast.CallExpr) *Sym {
 	switch name {
 	case "len":
 		if len(args) == 1 {
-			if args[0].K == symList {
+			static := args[0].K == symList
+			for _, part := range args[0].Parts {
+				if part.K == symRepeat {
+					static = false // one entry per element of another collection: the length is not known
+				}
+			}
+			if static {
 				result = &Sym{K: symConst, C: constant.MakeInt64(int64(len(args[0].Parts)))}
 			} else if s, ok := args[0].ConstString(); ok {
 				result = &Sym{K: symConst, C: constant.MakeInt64(int64(len(s)))}
